@@ -153,6 +153,13 @@ static NEXT_INST: AtomicU32 = AtomicU32::new(0);
 static DOUBLE_DROPS: AtomicU64 = AtomicU64::new(0);
 static BAD_CANARY: AtomicU64 = AtomicU64::new(0);
 static TABLE_OVERFLOW: AtomicU64 = AtomicU64::new(0);
+/// free-mode perturbation of `Drop` (0 = off): a user type's destructor is user code too, and the library may run it
+/// inside its own critical sections
+static DROP_PERTURB: AtomicU32 = AtomicU32::new(0);
+
+pub fn set_drop_perturbation(seed: u32) {
+    DROP_PERTURB.store(seed, Ordering::SeqCst);
+}
 
 fn table() -> &'static [AtomicU8] {
     TABLE.get_or_init(|| {
@@ -258,6 +265,16 @@ impl Drop for E {
             }
         }
         unsafe { std::ptr::write_volatile(&mut self.canary, 0xDEAD_0000) };
+        crate::sched::drop_yield_point();
+        let seed = DROP_PERTURB.load(Ordering::Relaxed);
+        if seed != 0 {
+            let r = mix(seed as u64 ^ 0xD409, self.uid);
+            match r % 149 {
+                0 => std::thread::sleep(std::time::Duration::from_micros(30 + (r >> 24) % 250)),
+                1..=3 => std::thread::yield_now(),
+                _ => {}
+            }
+        }
     }
 }
 
